@@ -134,6 +134,133 @@ def method_table(meth):
     return out
 
 
+# ------------------------------------------------------------------------------------------------ wait predicates -> Lean
+UFIELDS = {'m_abort': ('bool', 's.abort'), 'm_tellp': ('int', 's.tellp'), 'm_tellg': ('int', 's.tellg'),
+           'm_bufferSize': ('int', 's.bufferSize'), 'm_fileSize': ('int', 's.fileSize'), 'm_readDemand': ('int', 's.readDemand'),
+           'm_defaultLogContainerSize': ('int', '(s.dlcs : Int)')}
+QFIELDS = {'m_abort': ('bool', 's.abort'), 'm_tellp': ('int', '(s.tellp : Int)'), 'm_tellg': ('int', '(s.tellg : Int)'),
+           'm_bufferSize': ('int', '(s.bufferSize : Int)'), 'm_fileSize': ('int', '(s.fileSize : Int)')}
+UNSIGNED = {'uint32_t': 2 ** 32, 'std::uint32_t': 2 ** 32, 'unsigned int': 2 ** 32, 'uint16_t': 2 ** 16, 'uint8_t': 2 ** 8,
+            'uint64_t': 2 ** 64, 'unsigned long': 2 ** 64, 'size_t': 2 ** 64, 'std::size_t': 2 ** 64}
+SIGNED64 = {'std::streamoff', 'std::streamsize', 'long', 'int64_t', 'std::int64_t', 'std::streampos'}
+CMP = {'<': '<', '<=': '≤', '>': '>', '>=': '≥', '==': '=', '!=': '≠'}
+
+
+def guard_expr(sh, fields, params):
+    """shape (see `shape`) of an expression -> ('bool' | 'int', Lean text).  Integers are mathematical integers: the
+    model leaves 64-bit overflow outside; a cast to an unsigned type is a reduction modulo 2^width."""
+    head, kids = sh[0], sh[1:]
+    kind = head[0]
+    at = dict(a.split('=', 1) for a in head[1:] if '=' in a)
+    if kind == 'BinaryOperator':
+        op = at.get('opcode')
+        ta, a = guard_expr(kids[0], fields, params)
+        tb, b = guard_expr(kids[1], fields, params)
+        if op in ('||', '&&') and ta == tb == 'bool':
+            return 'bool', '(%s %s %s)' % (a, op, b)
+        if op in CMP and ta == tb == 'int':
+            return 'bool', 'decide (%s %s %s)' % (a, CMP[op], b)
+        if op in ('+', '-') and ta == tb == 'int':
+            return 'int', '(%s %s %s)' % (a, op, b)
+        raise Unsupported('binary operator %s on %s, %s in a wait predicate' % (op, ta, tb))
+    if kind == 'UnaryOperator' and at.get('opcode') == '!':
+        ta, a = guard_expr(kids[0], fields, params)
+        if ta == 'bool':
+            return 'bool', '(!%s)' % a
+        raise Unsupported('! on a non-boolean in a wait predicate')
+    if kind == 'MemberExpr' and kids and kids[0][0][0] == 'CXXThisExpr':
+        nm = at.get('name')
+        if nm in fields:
+            return fields[nm]
+        raise Unsupported('member %s in a wait predicate' % nm)
+    if kind == 'CXXMemberCallExpr' and kids and kids[0][0][0] == 'MemberExpr':
+        m = kids[0]
+        mat = dict(a.split('=', 1) for a in m[0][1:] if '=' in a)
+        nm = mat.get('name', '')
+        base = m[1] if len(m) > 1 else None
+        if nm.startswith('operator ') and nm[len('operator '):] in SIGNED64 | {'long'} and len(kids) == 1:
+            return guard_expr(base, fields, params)            # std::fpos -> std::streamoff: the same number
+        if base is not None and base[0][0] == 'MemberExpr' and 'name=m_queue' in base[0] and len(kids) == 1:
+            if nm == 'empty':
+                return 'bool', 's.queue.isEmpty'
+            if nm == 'size':
+                return 'int', '(s.queue.length : Int)'
+        raise Unsupported('call of %s in a wait predicate' % nm)
+    if kind == 'CXXOperatorCallExpr' and len(kids) == 3 and kids[0][0][0] == 'DeclRefExpr':
+        op = [a for a in kids[0][0] if a.startswith('ref=')][0][4:]
+        ta, a = guard_expr(kids[1], fields, params)
+        tb, b = guard_expr(kids[2], fields, params)
+        if op in ('operator-', 'operator+') and ta == tb == 'int':
+            return 'int', '(%s %s %s)' % (a, op[-1], b)
+        if op[len('operator'):] in CMP and ta == tb == 'int':
+            return 'bool', 'decide (%s %s %s)' % (a, CMP[op[len('operator'):]], b)
+        raise Unsupported('%s in a wait predicate' % op)
+    if kind in ('CXXStaticCastExpr', 'CStyleCastExpr', 'CXXFunctionalCastExpr') and len(kids) == 1:
+        to = at.get('to', '')
+        ta, a = guard_expr(kids[0], fields, params)
+        if ta == 'int' and to in UNSIGNED:
+            return 'int', '(%s %% %d)' % (a, UNSIGNED[to])
+        if ta == 'int' and to in SIGNED64:
+            return 'int', a
+        raise Unsupported('cast to %s in a wait predicate' % to)
+    if kind == 'DeclRefExpr':
+        nm = at.get('ref')
+        if nm and nm.isidentifier():
+            params.add(nm)
+            return 'int', nm
+    if kind == 'IntegerLiteral' and 'value' in at:
+        return 'int', '(%s : Int)' % at['value']
+    if kind == 'CXXBoolLiteralExpr' and 'value' in at:
+        return 'bool', 'true' if at['value'] in ('True', 'true') else 'false'
+    raise Unsupported('%s in a wait predicate' % kind)
+
+
+def guards(astdir):
+    """-> [(lean name, state type, sorted parameter names, Lean text)] for every wait predicate of the two monitors"""
+    out = []
+    for cls, pre, fields, stt in (('ObjectQueue', 'queue', QFIELDS, 'Blf.Queue.State'), ('UncompressedFile', 'ufile', UFIELDS, 'Blf.UFile.State')):
+        ds = astload.docs('%s/%s.json' % (astdir, cls))
+        spec = [d for d in ds if d.get('kind') == 'ClassTemplateSpecializationDecl']
+        inst = [c for d in spec for c in d.get('inner', []) if c.get('kind') == 'CXXMethodDecl'
+                and any(x.get('kind') == 'CompoundStmt' for x in c.get('inner', []))]
+        meths = inst or [d for d in ds if d.get('kind') == 'CXXMethodDecl']
+        count = {}
+        for d in meths:
+            if not any(x.get('kind') == 'CompoundStmt' for x in d.get('inner', [])):
+                continue
+            nm = d['name']
+            key = nm if nm not in count else '%s%d' % (nm, count[nm])
+            count[nm] = count.get(nm, 0) + 1
+            found = []
+
+            def walk(n):
+                mc = member_call(n)
+                if mc and mc[1] == 'wait':
+                    found.append(lambda_body(n))
+                    return
+                for c in n.get('inner', []):
+                    walk(c)
+            walk(d)
+            for lb in found:
+                sh = shape(lb)
+                # CompoundStmt [ ReturnStmt [ expr ] ]
+                if not (len(sh) == 2 and sh[1][0][0] == 'ReturnStmt' and len(sh[1]) == 2):
+                    raise Unsupported('wait predicate of %s::%s is not a single return statement' % (cls, nm))
+                params = set()
+                t, txt = guard_expr(sh[1][1], fields, params)
+                if t != 'bool':
+                    raise Unsupported('wait predicate of %s::%s is not boolean' % (cls, nm))
+                out.append(('%sGuard_%s' % (pre, key), stt, sorted(params), txt))
+    return out
+
+
+def lean_guards_text(gs):
+    t = 'import Blf.UFile\nimport Blf.Queue\n/-! generated from the clang AST: the predicates of the `wait` calls of the two monitors, over the state of the hand models\n    (integers are mathematical integers; a cast to an unsigned type is a reduction modulo 2^width) -/\nnamespace Blf.Gen\n\n'
+    for nm, stt, ps, txt in gs:
+        t += 'def %s (s : %s)%s : Bool :=\n  %s\n\n' % (nm, stt, ''.join(' (%s : Int)' % p for p in ps), txt)
+    return t + 'end Blf.Gen\n'
+
+
 def tables(astdir):
     """-> {class: {method(#k for overloads): table}}"""
     res = {}
